@@ -1,6 +1,7 @@
 import Lean.Data.Json
 import Ktm.Results
 import Ktm.Track
+import Ktm.NanEpoch
 import Ktm.Driver
 /-! Line-protocol driver for the `metrics` suite (C18, C20-stub): metric histories, result conversion,
     multi-objective values, the shared SaveBestEpoch callback. -/
@@ -40,6 +41,16 @@ def handle (j : Json) : String :=
           | .arr #[.bool b, v] => (v.getInt?).toOption.map (fun v => (b, v)) | _ => none)
       | _ => []
     s!"value={Results.multiValue terms}"
+  | "nanconv" =>
+    -- one History curve with NaN epochs (null): best epoch and value as the scanning loop finds them
+    let mn := (j.getObjValAs? Bool "minimize").toOption.getD true
+    let curve : List (Option Int) := match (j.getObjVal? "curve").toOption with
+      | some (.arr a) => a.toList.map (fun x => (x.getInt?).toOption) | _ => []
+    let framed := curve.map (fun v => v.map (fun x => if mn then x else -x))
+    match NanEpoch.bestEpoch framed with
+    | some (i, some v) => s!"epoch={i} value={if mn then v else -v}"
+    | some (i, none) => s!"epoch={i} value=nan"
+    | none => "empty"
   | "track" =>
     -- Oracle.update_trial over a MetricsTracker: reports of several metrics per step
     let oj := (j.getObjVal? "objective").toOption.getD Json.null
